@@ -7,6 +7,7 @@ from ..dataflow import derives
 from ..loader import dotted, walk_no_nested
 from ..tables import op_classes
 from . import c10
+from .common_none import none_tests
 
 WRITERS = [("io/blackbird_io.py", "to_blackbird"), ("io/xir_io.py", "to_xir"), ("io/utils.py", "generate_code")]
 FIELDS = {"select": "post-selection value of a measurement", "dark_counts": "dark counts of MeasureFock",
@@ -117,7 +118,40 @@ def names(ctx, rule="C14.names"):
     ctx.floor(rule, 40)
 
 
+def presence(ctx, rule="C14.presence"):
+    ctx.explain(f"{rule}: the writers test the presence of select / dark_counts with `is not None` (a post-selection on 0 "
+                "is a value, not an absence); the XIR / Blackbird statement lists the modes in the order of cmd.reg "
+                "(per-mode option lists are positional, so re-ordering the wires re-assigns them).")
+    n = 0
+    for rel, qn in (("io/blackbird_io.py", "to_blackbird"), ("io/xir_io.py", "to_xir")):
+        f = ctx.tree.func(rel, qn)
+        n += none_tests(ctx, rule, f, ("select", "dark_counts"), "a post-selected value / dark-count rate of")
+        # wires in cmd.reg order
+        srcs = [x for x in walk_no_nested(f.node) if isinstance(x, (ast.GeneratorExp, ast.ListComp)) and
+                isinstance(x.elt, ast.Attribute) and x.elt.attr == "ind" and (dotted(x.generators[0].iter) or "").endswith(".reg")]
+        ctx.require(srcs, f"{qn} no longer builds the mode list from cmd.reg")
+        if qn == "to_xir":
+            st = [x for x in walk_no_nested(f.node) if isinstance(x, ast.Call) and dotted(x.func) == "xir.Statement"]
+            ctx.require(st and len(st[0].args) >= 3, "to_xir no longer builds xir.Statement(name, params, wires)")
+            d = derives(f.node, st[0].args[2])
+            reordered = d.has_call("sorted") or d.has_call("reversed") or d.has_call("set") or d.has_call(".sort")
+            ok = not reordered and any(isinstance(e, ast.Attribute) and e.attr == "reg" for e in d.exprs)
+            ctx.ob(rule, f.site, ok, "" if ok else "the wires of the statement are re-ordered on the way from cmd.reg: positional "
+                   "select / dark_counts lists no longer belong to their modes", role="wire-order", line=st[0].lineno)
+        else:
+            stores = [x for x in walk_no_nested(f.node) if isinstance(x, ast.Assign) and isinstance(x.targets[0], ast.Subscript)
+                      and isinstance(x.targets[0].slice, ast.Constant) and x.targets[0].slice.value == "modes"]
+            ctx.require(stores, "to_blackbird no longer stores op['modes']")
+            v = stores[0].value
+            reordered = any(isinstance(c, ast.Call) and dotted(c.func) in ("sorted", "reversed", "set") for c in ast.walk(v))
+            ok = not reordered and any(isinstance(e, ast.Attribute) and e.attr == "reg" for e in ast.walk(v))
+            ctx.ob(rule, f.site, ok, "" if ok else "op['modes'] is not the mode list in cmd.reg order", role="wire-order",
+                   line=stores[0].lineno)
+    ctx.floor(rule, 6)
+
+
 def rules(ctx):
+    presence(ctx)
     fields(ctx)
     keys(ctx)
     names(ctx)
